@@ -249,3 +249,7 @@ impl ItemHeader {
         self.type_id_and_id = (((type_id as u32) << 16) | (id as u32)) as i32;
     }
 }
+
+#[cfg(any(kani, libtw2_verif))]
+#[path = "/verif/kani/datafile_format.rs"]
+mod verif_kani;
